@@ -35,7 +35,7 @@ class Check(FormulaCheck):
     RULE = ('case = one call of AND/OR/XOR/NOT/IF/IFS/SWITCH or of a predicate with arguments injected as variables (flat, nested host lists) or literals; '
             'tuples of length 1-3 over {TRUE,FALSE,0,1,-2,0.5,blank} are enumerated exhaustively, longer ones and IFS/SWITCH lists are sampled; every one of the 9 '
             'error codes is placed in every tested condition slot. non-trivial = the result was compared with the model; distinct = distinct (function, arguments, grouping).')
-    ASSUMPTIONS = ('truthiness of text is not claimed; SWITCH targets and cases are drawn from one type at a time and error targets are not used',
+    ASSUMPTIONS = ('truthiness of text is not claimed; SWITCH targets and cases are drawn from one type at a time; an error as a CASE is not used',
                    'one error per call; dates are outside the five predicate classes; arity 0 is outside the quantifier',
                    'an error in an IFS condition is demanded to surface only up to and including the first true condition')
 
@@ -98,6 +98,13 @@ class Check(FormulaCheck):
         for x in VALS + RARE:
             g = self.ev('NOT(v_x)', v_x=x)
             self.expect('C12/NOT', g is (not tv(x)), arg=x, got=g)
+            # 'of all their (flattened) arguments': the one argument of NOT may come inside an array (a one-cell range, {0}) like those of AND and OR
+            for nested in ([x], [[x]], (x,)):
+                g = self.ev('NOT(v_x)', v_x=nested)
+                self.expect('C12/NOT:argument-inside-a-one-item-array', g is (not tv(x)), arg=nested, got=g)
+            if isinstance(x, (int, float)) and not isinstance(x, bool) and x == x and abs(x) < 1e15 and x == int(x):
+                g = self.ev('NOT({%d})' % int(x))
+                self.expect('C12/NOT:argument-inside-a-one-item-array', g is (not tv(x)), formula='NOT({%d})' % int(x), got=g)
             g = self.ev('IF(v_x,"t","f")', v_x=x)
             self.expect('C12/IF', g == ('t' if tv(x) else 'f'), arg=x, got=g)
             rec.nt(('NOT/IF', x))
@@ -126,7 +133,9 @@ class Check(FormulaCheck):
                             self.expect('C12/error-condition-in-%s' % fn, g == want, formula=f, args=a, got=g, expected=want)
                             rec.nt((fn, code, n, pos, mode))
             for f, key in (('NOT(v_x)', 'NOT'), ('IF(v_x,1,2)', 'IF'), ('IFS(v_x,1,TRUE,2)', 'IFS-first'), ('IFS(FALSE,1,v_x,2)', 'IFS-second'),
-                           ('IFS(0,1,v_x,2,TRUE,3)', 'IFS-second'), ('IF(v_x,"a","b")', 'IF'), ('NOT(NOT(v_x))', 'NOT')):
+                           ('IFS(0,1,v_x,2,TRUE,3)', 'IFS-second'), ('IF(v_x,"a","b")', 'IF'), ('NOT(NOT(v_x))', 'NOT'),
+                           # the value SWITCH tests is its target: an error there is that error, not the default branch (nor #N/A)
+                           ('SWITCH(v_x,1,"a","d")', 'SWITCH-target'), ('SWITCH(v_x,1,"a")', 'SWITCH-target'), ('SWITCH(v_x,1,"a",2,"b","d")', 'SWITCH-target')):
                 g = self.ev(f, v_x=eobj)
                 self.expect('C12/error-condition-in-' + key, g == want, formula=f, code=code, got=g, expected=want)
                 rec.nt((f, code))
